@@ -29,8 +29,9 @@ coq/gen/RstrGen.v -> the C13_gen_* obligations stop checking):
    `if v:` on a "string or None" variable refines v); `raise ValueError(...)`;
    `try: <updates of the dictionary> except <classes>: raise ValueError(...)` (several handlers);
    `getattr(self, "_handle_" + name)(rrkwargs, name, value, ignoretz=ignoretz, tzinfos=tzinfos)`
-   (-> gen_dispatch); `return rrule(dtstart=dtstart, cache=cache, **rrkwargs)` (-> the dictionary;
-   the constructor is the hand model `ctor`); for __str__ see translate_str below.
+   (-> gen_dispatch); `return rrule(dtstart=dtstart, cache=cache, **rrkwargs)`, also inside
+   `try: .. except <classes>: raise <Exc>` (-> the dictionary; the constructor is the hand model `ctor`,
+   the handlers are applied to its result in gen_rule); for __str__ see translate_str below.
  expressions
    names, str / int constants, None; int(e) [ValueError]; e.split(<1 char>); e.upper(); e.lower();
    e.find(<1 char>) != -1 / == -1 and `<1 char> in e` (has_char); len(e) as a truth value;
@@ -403,9 +404,27 @@ class Fn:
             return "GOk %s" % env[kws[2][1]][0]
         fail("return", s)
 
+    def handlers_of(self, s):
+        hs = []
+        for h in s.handlers:
+            if h.name is not None or len(h.body) != 1 or not isinstance(h.body[0], ast.Raise):
+                fail("except clause", h)
+            tys = h.type.elts if isinstance(h.type, ast.Tuple) else [h.type]
+            cls = []
+            for t in tys:
+                if not (isinstance(t, ast.Name) and t.id in EXC):
+                    fail("exception class", h)
+                cls.append(EXC[t.id])
+            hs.append("([%s], %s)" % ("; ".join(cls), self.exc_of(h.body[0])))
+        return hs
+
     def try_(self, s, rest, env, k):
         if s.orelse or s.finalbody or not s.handlers:
             fail("try with else/finally", s)
+        # try: return rrule(dtstart=dtstart, cache=cache, **rrkwargs)  except <classes>: raise <Exc>
+        if self.ret_kind == "rrule" and len(s.body) == 1 and isinstance(s.body[0], ast.Return) and not rest:
+            self.ctor_handlers = self.handlers_of(s)
+            return self.ret(s.body[0], env)
         assigned = set()
         for n in ast.walk(ast.Module(body=s.body, type_ignores=[])):
             if isinstance(n, ast.Name) and isinstance(n.ctx, ast.Store):
@@ -1753,8 +1772,10 @@ def translate(src):
     out.append("(* returns the keyword dictionary handed to rrule(dtstart=dtstart, cache=cache, **rrkwargs) *)")
     out.append("Definition gen_parse_rfc_rrule (ig : bool) (line : str) : gres kwargs :=\n  %s.\n" % t)
     out.append("(* self._parse_rfc_rrule(line, dtstart=.., ignoretz=.., tzinfos=..): the dictionary, then rrule(...) = ctor *)")
+    hs = getattr(fn, "ctor_handlers", None)
+    call = "g_of_res (ctor ev st kw)" if hs is None else "gcatchs (g_of_res (ctor ev st kw)) [%s]" % "; ".join(hs)
     out.append("Definition gen_rule (ev : env) (ig : bool) (line : str) (st : option dt) : gres rule :=\n"
-               "  gbind (gen_parse_rfc_rrule ig line) (fun kw => g_of_res (ctor ev st kw)).\n")
+               "  gbind (gen_parse_rfc_rrule ig line) (fun kw => %s).\n" % call)
     out.append("Definition gen_parse_date (ig : bool) (datestr : str) : gres dt :=\n  %s.\n" % translate_parse_date(cls))
     out.append("Definition gen_parse_date_value (o : opts) (rule_tzids : list str) (date_value : str) "
                "(parms : list str) : gres (list dt) :=\n  %s.\n" % translate_pdv(cls, tables))
